@@ -13,3 +13,21 @@ macro_rules! lib_only {
         }
     };
 }
+
+fn sev(c: i32) -> i32 {
+    if c == 1 { 2 } else if c == 7 { 1 } else { 0 }
+}
+
+/// C06 (test): folding two exit codes from {0,1,7} yields the more severe one (error 1 > failure 7 > success 0)
+#[cfg_attr(kani, kani::proof)]
+#[cfg_attr(verif_replay, test)]
+fn k_test_get_exit_code() {
+    lib_only!();
+    let a: i32 = kani::any();
+    let b: i32 = kani::any();
+    kani::assume(a == 0 || a == 1 || a == 7);
+    kani::assume(b == 0 || b == 1 || b == 7);
+    let r = get_exit_code(a, b);
+    kani::assert(r == 0 || r == 1 || r == 7, "closed on {0,1,7}");
+    kani::assert(sev(r) == if sev(a) >= sev(b) { sev(a) } else { sev(b) }, "the more severe code wins");
+}
